@@ -121,6 +121,10 @@ func truncateRecordBatchToTimestamp(batch []byte, cutoffMs int64) (RecordBatch, 
 	lastOffsetDelta := int32(0)
 	maxIncludedTimestamp := firstTimestamp
 	recordDataLen := len(batch[recordBatchHeaderLen:])
+	// The scan is finished for the segment only once a record later than the
+	// cutoff has been seen; a batch that is kept whole (or holds no records)
+	// says nothing about the batches after it.
+	sawLater := false
 	for i := int32(0); i < recordCount; i++ {
 		timestampDelta, offsetDelta, err := scanRecord(reader)
 		if err != nil {
@@ -128,6 +132,7 @@ func truncateRecordBatchToTimestamp(batch []byte, cutoffMs int64) (RecordBatch, 
 		}
 		recordTimestamp := firstTimestamp + timestampDelta
 		if recordTimestamp > cutoffMs {
+			sawLater = true
 			break
 		}
 		keptCount++
@@ -138,11 +143,11 @@ func truncateRecordBatchToTimestamp(batch []byte, cutoffMs int64) (RecordBatch, 
 		}
 	}
 	if keptCount == 0 {
-		return RecordBatch{}, false, true, nil
+		return RecordBatch{}, false, sawLater, nil
 	}
 	if keptCount == recordCount {
 		parsed, err := NewRecordBatchFromBytes(batch)
-		return parsed, true, true, err
+		return parsed, true, sawLater, err
 	}
 
 	truncated := append([]byte(nil), batch[:recordBatchHeaderLen+keptBytes]...)
